@@ -3850,7 +3850,12 @@ class Intent_Spec(STRINGBase):  # R517
 
     @staticmethod
     def match(string):
-        return STRINGBase.match(pattern.abs_intent_spec, string)
+        result = STRINGBase.match(pattern.abs_intent_spec, string)
+        if result:
+            # "IN OUT" may be written with any number of blanks (e.g. when
+            # it is split over a continuation line).
+            return (" ".join(result[0].split()),)
+        return result
 
 
 class Access_Stmt(StmtBase, WORDClsBase):  # R518
